@@ -26,7 +26,7 @@ def step_strategy(draw, small):
         'label_mode': draw(st.sampled_from(['disjoint', 'disjoint', 'as_is'])),
         'entry': draw(st.sampled_from(ENTRIES)), 'right': draw(st.booleans()),
         'pairs': [[draw(st.integers(0, 30)), draw(st.integers(0, 30))] for _ in range(draw(st.integers(0, 3)))],
-        'conn_kind': draw(st.sampled_from(['inputs', 'inputs', 'any', 'any', 'repeat', 'full'])),
+        'conn_kind': draw(st.sampled_from(['inputs', 'inputs', 'any', 'any', 'repeat', 'full', 'repeat_replaced'])),
         # pass the circuits' own live inputs / outputs lists as connectors whenever a connector list equals one of them
         'live': draw(st.booleans()),
         'name': draw(st.sampled_from(['', '', 'N', 'blk', 'N'])), 'add_prefix': draw(st.sampled_from([True, True, False])),
@@ -100,6 +100,12 @@ def _plan(cur, step, k):
             extra = [x for x in oi if x not in oth]
             oth.append(extra[0])
             this.append(this[0])
+    if step['conn_kind'] == 'repeat_replaced' and this and entry in ('connect_circuit', 'extend_explicit'):
+        # a replaced gate listed twice - with the same partner or with another one: to be refused either way
+        k2 = (step['pairs'][0][0] + step['pairs'][0][1]) % len(this)
+        this.append(this[0] if right else this[k2])
+        oth.append(oth[k2] if right else oth[0])
+        return dict(entry=entry, this=this, other=oth, right=right, other_nl=other)
     if entry == 'connect_left' and not right and len(oi) == len(set(oi)):
         pool_t = labs_c
         if pool_t and oi:
@@ -220,6 +226,16 @@ def check_compose(case):
             raise Violation('valid_composition_rejected',
                             f'{entry}(right={plan["right"]}, this={plan["this"]}, other={plan["other"]}, name={name!r}, '
                             f'add_prefix={add_prefix}) raised {type(e).__name__}: {e}')
+        if ref[0] == 'error' and ref[1].startswith('repeated'):
+            # The library refuses a replaced gate that is listed twice.  Refusing is not part of the documented composition
+            # when the two listings name the same partner (the pairs stay consistent): an accepted call is then held to the
+            # composition of the distinct pairs.  A replaced gate with two different partners has no composition at all.
+            seen_pairs = list(dict.fromkeys(zip(plan['this'], plan['other'])))
+            ref2 = reference_compose(cur, other, [a for a, _ in seen_pairs], [b for _, b in seen_pairs], plan['right'], name,
+                                     add_prefix, cur_blocks)
+            if ref2[0] != 'error':
+                ref = ref2
+                cls.add('accepted_duplicate_pair')
         if ref[0] == 'error':
             raise Violation('invalid_composition_accepted', f'{entry}: expected rejection ({ref[1]}) but the call returned')
         if ret is not c:
@@ -323,5 +339,6 @@ SPEC = {
                                      'entry:connect_inputs', 'entry:extend_default', 'entry:extend_explicit',
                                      'entry:add_circuit', 'right_to_internal_gate', 'right_repeated_attached_gate',
                                      'left_repeated_base_gate', 'left_from_internal_gate', 'block_extracted',
-                                     'other_has_blocks', 'repeated_composition', 'named_no_prefix', 'live_connectors']},
+                                     'other_has_blocks', 'repeated_composition', 'named_no_prefix', 'live_connectors',
+                                     'rejected:repeated base connector', 'rejected:repeated attached connector']},
 }
